@@ -148,6 +148,58 @@ CLAIMED = {
              "parsers in 11 configurations (known findings F10 cost, F11 TypeError), not proved.",
         design="DESIGN §8 C09",
         technique="Lean 4 proof (acceptance iff validity; MRO table regenerated from the source) + constructor/text/garbage correspondence"),
+    "C07": dict(
+        text="Theorems over the Lean model of TimePointParser (get_info / get_date_info / get_time_info / "
+             "get_time_zone_info / process_time_zone_info) whose regular expressions are templates regenerated on "
+             "every run from the regex objects the live parser compiled (expanded digits 0/2/3 x basic-only): "
+             "C07_template_roundtrip - every template matches the text it spells for any fitting group assignment and "
+             "groupdict() is that assignment; C07_overlaps / C07_first_match_tables (kernel-decided over the regenerated "
+             "tables) + C07_first_match - no earlier entry of the try-order catches a rendered form, the complete list of "
+             "genuine overlaps (truncated forms only) is proved, not assumed; C07_split / C07_groups / C07_groups_date - "
+             "get_info cuts date, time and zone exactly (Z, +, - with the truncated-time retry) and returns the rendered "
+             "groups, the processed zone and the concatenated expression text. PARTIAL: the last step, groups -> "
+             "TimePoint fields (_create_timepoint_from_info: year weights, defaults, decimals) and dump_as_parsed are "
+             "modelled and tied by the three-way correspondence (implementation, Lean model, independent oracle rendering "
+             "from the documented expression strings) but their theorem is not yet stated; decimals are digit strings, "
+             "floats observed; F12 (7-9 digit decimals rounded by dump_as_parsed) is a known finding.",
+        design="DESIGN §8 C07, §13",
+        technique="Lean 4 proof (generic template round trip by induction; table facts by kernel evaluation over templates "
+                  "regenerated from the live regexes) + three-way correspondence"),
+    "C08": dict(
+        text="Theorem C08_default_format over the Lean model of _get_dump_format: for every whole-second point in the "
+             "three representations the default format is the signed-iff-expanded year digits, the extended complete "
+             "date, Thh:mm:ss and Z or +hh:mm (negative year without expanded digits = the documented OverflowError); "
+             "together with C07's template round trip and first-match theorems (the default format is a listed form). "
+             "PARTIAL: the composed statement parse(str(p)) = p is decided by the correspondence (ops tround, tdump: "
+             "implementation vs Lean model str/dump/parse vs an oracle that formats the expected text itself), over all "
+             "representations, 24:00, every offset, year extremes per expanded-digit setting, decimal forms of <= 6 "
+             "digits, custom complete formats with symbolic and literal zones; not yet a single theorem.",
+        design="DESIGN §8 C08, §13",
+        technique="Lean 4 proof (format selection; template round trip from C07) + three-way correspondence"),
+    "C10": dict(
+        text="Theorems over the Lean model of Duration.__str__ and DurationParser.parse, whose three regular expressions "
+             "are regenerated from the live compiled patterns and run by a leftmost-greedy backtracking matcher: "
+             "C10_roundtrip - for every single-signed integer duration (any mix of absent/zero/present units, week form, "
+             "either sign, components of any size with h/m/s exactly representable in binary64), in every mode, "
+             "parse(str(d)) succeeds, equals d field for field (the empty duration as P0Y), == d in both operand orders, "
+             "and str is a fixpoint; C10_designators(+_weeks) - every designator string decodes to its fields; C10_alt - "
+             "the alternative date-time-like spelling (basic and extended, calendar and ordinal) decodes as the designator "
+             "spelling; proved counter-witness beyond binary64 (float() in the parser); mixed-sign durations print as "
+             "unparseable text (outside the property, recorded). Decimal components observed only (float repr law).",
+        design="DESIGN §8 C10, §13",
+        technique="Lean 4 proof (regex matcher semantics over regenerated regex ASTs; digit-string lemmas) + correspondence"),
+    "C17": dict(
+        text="Theorems over the Lean model of TimePointDumper.strftime / TimePointParser.strptime with the translation "
+             "tables regenerated from parser_spec.py: C17_strftime - for every valid point (3 representations, any offset, "
+             "4 modes) with civil year 0000-9999 and every format over the eleven supported directives and literal text, "
+             "the output is the POSIX text for the civil date-time (Spec.Posix), %Y the calendar year also for week dates, "
+             "%z signed also with zero hours; C17_unix - %s is instant minus epoch; C17_strftime_bounds; C17_unsupported - "
+             "any other %-letter is a StrftimeSyntaxError in both directions; C17_strptime - for every determining format "
+             "strptime(strftime(p)) is a valid point at the same instant (p's own offset and clock fields; local zone for "
+             "%s alone), adjacent numeric conversions included; C17_defaults - unnamed parts take their defaults and the "
+             "assumed zone. %s together with %z is outside 'determined' (proved counter-witness, recorded in DESIGN).",
+        design="DESIGN §8 C17, §13",
+        technique="Lean 4 proof (refinement of the dumper/parser pipeline to a POSIX specification) over regenerated tables + correspondence"),
     "C03": dict(
         text="Theorems over the Lean model: the six conversions are total on valid dates, produce valid dates and "
              "preserve the Spec day number (so all round trips are identities), for every year in Int and all four "
